@@ -295,7 +295,10 @@ ENGINE_TAGS = {"eq", "neq", "conde", "cond", "fresh", "dfs", "conj", "rawconj", 
                "var", "num", "sym", "list", "ilist", "cons", "nil", "cmp", "any"}
 
 
-def with_engine_records(ctx, every=1):
+FD_ENGINE_TAGS = {"dom", "itv", "vec", "ltefd", "ltfd", "neqfd", "distinctfd"}
+
+
+def with_engine_records(ctx, every=1, extra=frozenset()):
     """Engine-level trace validation for the query cases planned so far whose goals Search.tla models step by
     step (tree constraints, the search operators, the closure-based library relations): the harness records
     the stream skeleton at every iteration of Solver::next, the judge steps the specification alongside.
@@ -303,7 +306,7 @@ def with_engine_records(ctx, every=1):
     n = 0
     for c in ctx["cases"]:
         if c.get("mode") == "query" and c.get("backend") != "surface" and not c.get("defs") \
-                and "sched" not in c and vlib.goal_tags({"b": c["body"]}) <= ENGINE_TAGS:
+                and not c.get("sched") and vlib.goal_tags({"b": c["body"]}) <= (ENGINE_TAGS | extra):
             n += 1
             if n % every == 0:
                 c["engine"] = True
@@ -866,6 +869,9 @@ def plan_fd(ctx):
         body, nv = gen.fd_collapse_program(rng)
         add(ctx, [{"id": "%s-col-%d" % (ctx["prop"], i), "kind": "program", "mode": "query",
                    "qvars": list(range(1, nv + 1)), "body": body, "after": 1}])
+    # the labelling pipeline step by step (programs without the arithmetic propagators, whose strength the
+    # specification deliberately does not copy)
+    with_engine_records(ctx, every=T(ctx, 2, 10), extra=FD_ENGINE_TAGS)
 
 
 FD_ASSUME = ["integer window -3..3 (flow A) / -6..6 (random); <= 3 variables exhaustive, <= 4 random",
